@@ -76,6 +76,7 @@ def gen_input(src, idx):
 
 # weights: cheap table/nested invocables often, the 1-2 ms ones less often (fixed work per plan stays bounded)
 INVOCABLE_WEIGHTS = [(4, "Mid"), (3, "Numeric"), (3, "Temporal"), (3, "Regex"), (3, "Grid"), (2, "Collect"), (2, "Priority"),
+                     (2, "Ranked"), (2, "Ordered"), (1, "Listed"), (1, "Least"),
                      (2, "Svc"), (2, "Calc"), (2, "Leaf"), (1, "Band"), (1, "Base"), (2, "Top"), (1, "Powers"), (1, "Outer"),
                      (1, "No Such Invocable")]
 
@@ -126,6 +127,19 @@ def gen_plan(src):
     return {"calls": calls, "threads": threads, "barrier": barrier, "skew": skew, "pin": pin}
 
 
+def gen_first_use(src):
+    """the FIRST evaluations of one invocable of a freshly built evaluator, made by all threads at the same moment (barrier, no skew,
+    3 steps): whatever an evaluator initialises lazily on first use is initialised under contention. Many short rounds."""
+    nthreads = src.weighted([(3, 2), (2, 3), (3, 4), (2, 8), (1, 16)])
+    name = src.choice(M.INVOCABLES) if src.bool(0.5) else src.choice(M.CLASSES["table"])
+    calls = [[name, gen_input(src, 0)], [name, gen_input(src, 1)]]
+    if src.bool(0.3):
+        calls.append([src.weighted(INVOCABLE_WEIGHTS), gen_input(src, 2)])
+    same = src.bool(0.6)
+    threads = [[[0 if same else t % 2, 0, 0], [(t + 1) % len(calls), 0, 0], [t % len(calls), 0, 0]] for t in range(nthreads)]
+    return {"calls": calls, "threads": threads, "barrier": True, "skew": [], "pin": "first-use"}
+
+
 # ------------------------------------------------------------------------------------------------
 # execution + oracle
 # ------------------------------------------------------------------------------------------------
@@ -170,6 +184,29 @@ def judge_cold(ctx, case, _resp):
     f = judge_response(ctx, case, resp, where="cold")
     if f == "hang":
         raise Inconclusive("C20 cold start: watchdog expired once; not decidable as a deadlock from one run")
+    return f
+
+
+FIRST_USE_ROUNDS = 40
+
+
+def judge_first_use(ctx, case, _resp):
+    """FIRST_USE_ROUNDS rounds of the plan, each on an evaluator built afresh inside one fresh driver process; the driver answers with the
+    first round in which a concurrent value differs from the sequential one (judged here like any other run) or with the last round"""
+    drv = Driver("release", timeout=120)
+    try:
+        drv.start()
+        req = {"op": "threads", "xml": M.XML, "rounds": FIRST_USE_ROUNDS, "calls": case["calls"], "threads": case["threads"], "barrier": True,
+               "skew": [], "watchdog_ms": watchdog_ms(ctx, rerun=True)}
+        resp = drv.safe(req, timeout=watchdog_ms(ctx, rerun=True) / 1000.0 + 60)
+    finally:
+        drv.stop()
+    if "error" in resp:
+        raise Inconclusive("C20 first use: %r" % (resp,))
+    ctx.count(max(0, resp.get("rounds_done", 1) - 1))
+    f = judge_response(ctx, case, resp, where="first-use")
+    if f == "hang":
+        raise Inconclusive("C20 first use: watchdog expired once; not decidable as a deadlock from one run")
     return f
 
 
@@ -534,16 +571,21 @@ def setup(ctx):
     ctx.p_corner = ctx.register(Part("corner", None, lambda case: [], judge_corner))
     ctx.p_stress = ctx.register(Part("stress", gen_plan, lambda case: [], judge_plan))
     ctx.p_cold = ctx.register(Part("cold", gen_plan, lambda case: [], judge_cold))
+    ctx.p_first = ctx.register(Part("first-use", gen_first_use, lambda case: [], judge_first_use))
     ctx.p_tsan = ctx.register(Part("tsan", gen_plan, lambda case: [], judge_tsan_replay))
 
 
 def run(ctx):
     only = os.environ.get("VERIF_C20_PARTS")  # debugging aid: "tsan" runs only the sanitizer part of the thorough tier
+    if only == "first-use":
+        ctx.forall(ctx.p_first, ctx.scale(150, 20000), batch=1)
+        return
     if only != "tsan":
         ctx.enumerate(ctx.p_corner, corner_plans(ctx), batch=1, name="every invocable x {2,16} threads in lock step; nested x leaf pairs",
                       exhaustive=True)
         ctx.forall(ctx.p_stress, ctx.scale(400, 24000), batch=1)
         ctx.forall(ctx.p_cold, ctx.scale(60, 3000), batch=1)
+        ctx.forall(ctx.p_first, ctx.scale(150, 20000), batch=1)
     if ctx.thorough() and not ctx.stop():
         run_tsan(ctx)
     elif not ctx.thorough():
